@@ -51,7 +51,8 @@ def gen_string_text(rng):
     return '"' + "".join(out) + '"'
 
 SYMS = ["a", "foo", "-", "+", "1+", "1-", "a.b", ":kw", ":k2", "foo-bar", "x1", "*", "/", "<=", "a(b", "é", "with_underscore",
-        "UPPER", "--", "a-1", "-a", "1a", "1.2.3", "nil2", "t1", "&rest", "λ"]
+        "UPPER", "--", "a-1", "-a", "1a", "1.2.3", "nil2", "t1", "&rest", "λ",
+        "inf", "nan", "infinity", "NaN", "INF", "-inf", "+inf", "+5", "+1.5", "1e5", "2.5e-3", "1E5", "e", "1e", "e5", "-nan", "Infinity", "0x10", "1_000", "+", "+a", "1e+5", ".e1", "5e", "1.e2"]
 
 def gen_val(rng, d):
     c = rng.random()
